@@ -557,6 +557,9 @@ def r11_restore_is_verbatim(ctx, rule):
     fn = ctx.fn(LOAD_SAVE)
     mod = ctx.repo.modules['pcfg_guesser.py']
     ps = params(fn)
+    if len(ps) < 2:
+        ctx.unk(rule, LOAD_SAVE, 'load_save no longer receives the option dictionary it restores into (parameters %s)' % ps)
+        return
     pin = ps[1]
     ok = True
     seen = {}
